@@ -96,7 +96,11 @@ contract("Problem.evaluate_inequality_constraints", abstract=True, params=["self
          allocates=["$list.Real", "$len.Real"])
 contract("DataStore.sync_individual", abstract=True, params=["self", "individual"], props=["C05", "C06", "C09", "C10", "C11"],
          types={"self": "Ref[DataStore]", "individual": "Ref[Individual]"},
-         trusted="store interface; DummyDataStore does nothing, SqliteDataStore is specified under C10/C11",
+         trusted="store interface; DummyDataStore does nothing, SqliteDataStore.sync_individual is verified under C10/C11",
+         # C11: a design is handed to the store only when its evaluation is complete (state EVALUATED, costs and signed costs set):
+         # a row can therefore never hold costs that do not belong to its vector
+         requires=["individual.state == 2", "valid(individual.costs)", "valid(individual.costs_signed)",
+                   "len(individual.costs_signed) >= 1"],
          ensures=[])
 
 define("job_wf", ["j", "x"],
